@@ -52,8 +52,7 @@ def install(R: Registry):
 
     # the manager's reaction to a control frame, as a function of its view of the client's subscription set
     # (these are exactly the postconditions of MessageManager.add_subscription / remove_subscription, C01)
-    R.define("add_step", "S: Set[Int], t: Int", f"ite(t == {ALL}, setadd(empty('Int'), {ALL}), ite(S[{ALL}], S, setadd(S, t)))")
-    R.define("remove_step", "S: Set[Int], t: Int", f"ite(t == {ALL}, empty('Int'), ite(S[{ALL}], S, setdel(S, t)))")
+    assert "add_step" in R.specfuncs and "remove_step" in R.specfuncs   # defined with the manager's handlers (same functions on both sides)
     R.define("cinv", "c: Client",
              f"forall('t:Int', not (c._subscribed_types[t] and c._paused_types[t])) and (c._sub_all == c._subscribed_types[{ALL}]) and "
              f"implies(c._sub_all, forall('t:Int', implies(c._subscribed_types[t], t == {ALL})) and forall('t:Int', not c._paused_types[t])) and not c._paused_types[{ALL}] and "
@@ -131,7 +130,7 @@ def install(R: Registry):
                            "self._subscribed_types == empty('Int') and self._paused_types == empty('Int') and not self._sub_all, "
                            "forall('t:Int', self._subscribed_types[t] == (old(self._subscribed_types[t]) and not inlist(msg_list, t))) and "
                            "forall('t:Int', self._paused_types[t] == (old(self._paused_types[t]) or inlist(msg_list, t))) and self._sub_all == old(self._sub_all)))"),
-                   ("C02", "self._connected and _VALIDATION_ENABLED"),
+                   ("C02", "self._connected and _VALIDATION_ENABLED and self.last_v2 == old(self.last_v2) and self.last_v1 == old(self.last_v1)"),
                    ("C02", "forall('c:Client', implies(c != self, c.mgr_subs == old(c.mgr_subs) and c._subscribed_types == old(c._subscribed_types) and c._paused_types == old(c._paused_types) and c._sub_all == old(c._sub_all)))"),
                ],
                raises={
@@ -142,7 +141,7 @@ def install(R: Registry):
                    "ConnectionLost": ["not self._connected"],
                },
                loops={1: dict(invariant=[
-                   "self._connected and _VALIDATION_ENABLED and self._sock != null and msg != null",
+                   "self._connected and _VALIDATION_ENABLED and self._sock != null and msg != null and self.last_v2 == old(self.last_v2) and self.last_v1 == old(self.last_v1)",
                    "self._subscribed_types == at_loop(self._subscribed_types) and self._paused_types == at_loop(self._paused_types) and self._sub_all == at_loop(self._sub_all)",
                    "forall('c:Client', implies(c != self, c.mgr_subs == old(c.mgr_subs) and c._subscribed_types == old(c._subscribed_types) and c._paused_types == old(c._paused_types) and c._sub_all == old(c._sub_all)))",
                    f"implies(ctrl_msg == {SUBSCRIBE} or ctrl_msg == {RESUME}, typeis(msg, MDF_SUBSCRIBE) or typeis(msg, MDF_RESUME_SUBSCRIPTION)) and "
@@ -164,7 +163,8 @@ def install2(R: Registry):
     MOD = ["Client._subscribed_types", "Client._paused_types", "Client._sub_all", "Client._msg_count", "Client._connected", "Client.mgr_subs",
            "glob:_VALIDATION_ENABLED", "CSocket.tx_n", "CSocket.tx_hdr"]
     OTHERS = ("C02", "forall('c:Client', implies(c != self, c.mgr_subs == old(c.mgr_subs) and c._subscribed_types == old(c._subscribed_types) and c._paused_types == old(c._paused_types) and c._sub_all == old(c._sub_all)))")
-    KEEP = ("C02", "cinv(self) and agree(self) and self._connected and _VALIDATION_ENABLED and forall('t:Int', implies(self._paused_types[t], not self.mgr_subs[t]))")
+    KEEP = ("C02", "cinv(self) and agree(self) and self._connected and _VALIDATION_ENABLED and forall('t:Int', implies(self._paused_types[t], not self.mgr_subs[t])) and "
+                   "self.last_v2 == old(self.last_v2) and self._name == old(self._name) and self._sock == old(self._sock)")
     UNCH = "self._subscribed_types == old(self._subscribed_types) and self._paused_types == old(self._paused_types) and self._sub_all == old(self._sub_all) and self.mgr_subs == old(self.mgr_subs)"
     RAISES = {
         "InvalidSubscription": [("C02", f"old(self._sub_all) and not inlist(msg_list, {ALL})"), ("C02", UNCH + " and self._msg_count == old(self._msg_count)")],
@@ -378,3 +378,118 @@ def install4(R: Registry):
                    "implies(M != null, self._sock.rx_idx > old(self._sock.rx_idx) and from_frame(M, self._sock, self._sock.rx_idx - 1))",
                    RD_FRAME,
                ])})
+
+
+def install5(R: Registry):
+    """connecting (C06, client side): options are transmitted exactly as named, the dynamic id is adopted from the ACK"""
+    from pyvc.core import parse_type
+    cl = R.classes["Client"]
+    cl.ghost["last_v2"] = parse_type("MDF_CONNECT_V2")     # payload of the CONNECT_V2 frame sent last
+    cl.ghost["last_v1"] = parse_type("MDF_CONNECT")
+    sm = R.contracts[C + "Client.send_message"]
+    import ast
+    sm.ghost_exit.append(ast.parse("if sent and typeis(msg_data, MDF_CONNECT_V2):\n    self.last_v2 = cast(msg_data, MDF_CONNECT_V2)\n"
+                                   "if sent and typeis(msg_data, MDF_CONNECT):\n    self.last_v1 = cast(msg_data, MDF_CONNECT)").body)
+    sm.modifies += ["Client.last_v2", "Client.last_v1"]
+    from pyvc.spec import _clauses
+    sm.ensures += _clauses([
+        ("C06", "implies(timeout < 0 and typeis(msg_data, MDF_CONNECT_V2), self.last_v2 == msg_data)"),
+        ("C06", "implies(timeout < 0 and typeis(msg_data, MDF_CONNECT), self.last_v1 == msg_data)"),
+        ("C06", "implies(not typeis(msg_data, MDF_CONNECT_V2), self.last_v2 == old(self.last_v2))"),
+        ("C06", "implies(not typeis(msg_data, MDF_CONNECT), self.last_v1 == old(self.last_v1))"),
+        ("C06", "self._module_id == old(self._module_id) and self._name == old(self._name)"),
+    ])
+    for nm in ("subscribe", "unsubscribe", "pause_subscription", "resume_subscription", "_subscription_control", "unsubscribe_from_all",
+               "pause_all_subscriptions", "resume_all_subscriptions", "subscription_context", "paused_subscription_context"):
+        R.contracts[C + "Client." + nm].modifies += ["Client.last_v2", "Client.last_v1"]
+
+    RD_REQ = ["self._sock != null and not self._sock.closed and rx_wf(self._sock) and self._sock.rx_off == 0", "self._sock.hsize == sizeof_cls(self._header_cls)",
+              "self._header_cls == classid(MessageHeader) or self._header_cls == classid(TimeCodeMessageHeader)"]
+    RD_MOD = ["CSocket.rx_idx", "CSocket.rx_off", "CSocket.rx_eof", "MessageBase.content", "MessageHeader.*", "Client._connected", "MessageData.*"]
+    R.contract(C + "Client._wait_for_acknowledgement", tags="C06 C19", returns="Message", params=dict(timeout="Float"),
+               requires=RD_REQ, modifies=RD_MOD,
+               ensures=[("C06 C19", "result != null and result.header != null and result.header.msg_type == 2 and self._sock.rx_idx > old(self._sock.rx_idx) and from_frame(result, self._sock, self._sock.rx_idx - 1)",
+                         "the message returned is an ACKNOWLEDGE frame taken from the inbound stream, unmodified"),
+                        "self._connected == old(self._connected) and self._sock.rx_off == 0 and rx_wf(self._sock)"],
+               raises={"AcknowledgementTimeout": [], "UnknownMessageType": [], "InvalidMessageDefinition": [], "ConnectionLost": ["not self._connected"], "NotConnectedError": []},
+               loops={1: dict(invariant=["self._connected == old(self._connected) and rx_wf(self._sock) and self._sock.rx_off == 0 and self._sock != null and not self._sock.closed and self._sock.rx_idx >= old(self._sock.rx_idx)",
+                                         "self._sock.hsize == sizeof_cls(self._header_cls) and (self._header_cls == classid(MessageHeader) or self._header_cls == classid(TimeCodeMessageHeader))"]),
+                      2: dict(invariant=["self._connected == old(self._connected) and rx_wf(self._sock) and self._sock.rx_off == 0 and self._sock != null and not self._sock.closed and self._sock.rx_idx >= old(self._sock.rx_idx)",
+                                         "self._sock.hsize == sizeof_cls(self._header_cls) and (self._header_cls == classid(MessageHeader) or self._header_cls == classid(TimeCodeMessageHeader))"])})
+
+    B = lambda x: f"ite({x}, 1, 0)"
+    R.define("v2_as_named", "c: Client, lg: Bool, dm: Bool, am: Bool, mid: Int",
+             f"c.last_v2 != null and c.last_v2.logger_status == {B('lg')} and c.last_v2.daemon_status == {B('dm')} and c.last_v2.allow_multiple == {B('am')} and "
+             "c.last_v2.mod_id == mid and c.last_v2.name == c._name",
+             "the CONNECT_V2 frame carries logger / daemon / allow-multiple / id / name exactly as the caller named them")
+    HELP_MOD = RD_MOD + ["Client._module_id", "Client._msg_count", "Client.mgr_subs", "Client._subscribed_types", "Client._paused_types", "Client._sub_all",
+                         "Client.last_v2", "Client.last_v1", "CSocket.tx_n", "CSocket.tx_hdr", "glob:_VALIDATION_ENABLED"]
+    R.external("RTMALogger.log_name.setter", params=dict(self="RTMALogger", value="Str"), pure=True, ensures=[])
+    R.contract(C + "Client._connect_helper", tags="C06", returns="Message",
+               params=dict(logger_status="Bool", daemon_status="Bool", allow_multiple="Bool"),
+               requires=RD_REQ + ["self._connected", "_VALIDATION_ENABLED", "self._logger != null", "isascii(self._name) and len(self._name) <= 31",
+                                  "0 <= self._module_id and self._module_id < 200", "implies(self._dynamic_id, True)"],
+               modifies=HELP_MOD,
+               ensures=[("C06", "v2_as_named(self, logger_status, daemon_status, allow_multiple, ite(old(self._dynamic_id), 0, old(self._module_id)))"),
+                        ("C06", "self.last_v1 != null and self.last_v1.logger_status == ite(logger_status, 1, 0) and self.last_v1.daemon_status == ite(daemon_status, 1, 0)"),
+                        ("C06", "result != null and result.header.msg_type == 2 and implies(old(self._dynamic_id) or old(self._module_id) == 0, self._module_id == result.header.dest_mod_id)",
+                         "a client that asked for id 0 adopts the id named in the acknowledgement"),
+                        ("C06", "implies(not old(self._dynamic_id) and old(self._module_id) != 0, self._module_id == old(self._module_id))"),
+                        ("C02", "self._subscribed_types == empty('Int') and self._paused_types == empty('Int') and not self._sub_all and self.mgr_subs == old(self.mgr_subs)"),
+                        ("C06", "self._connected and _VALIDATION_ENABLED and self._sock == old(self._sock) and not self._sock.closed and rx_wf(self._sock) and self._sock.rx_off == 0 and "
+                                "self._name == old(self._name) and self._header_cls == old(self._header_cls) and self._sock.hsize == old(self._sock.hsize)")],
+               raises={"AcknowledgementTimeout": [], "UnknownMessageType": [], "InvalidMessageDefinition": [], "ConnectionLost": [], "NotConnectedError": [],
+                       "InvalidDestinationModule": [], "InvalidDestinationHost": []})
+
+
+def install6(R: Registry):
+    """Client.connect and client_context (C06): every public way of connecting passes the options on as named"""
+    RD_MOD = ["CSocket.rx_idx", "CSocket.rx_off", "CSocket.rx_eof", "MessageBase.content", "MessageHeader.*", "Client._connected", "MessageData.*"]
+    HELP_MOD = RD_MOD + ["Client._module_id", "Client._msg_count", "Client.mgr_subs", "Client._subscribed_types", "Client._paused_types", "Client._sub_all",
+                         "Client.last_v2", "Client.last_v1", "CSocket.tx_n", "CSocket.tx_hdr", "glob:_VALIDATION_ENABLED", "Client._sock", "CSocket.closed"]
+    SOCK_OK = ("self._sock != null and not self._sock.closed and rx_wf(self._sock) and self._sock.rx_off == 0 and self._sock.hsize == sizeof_cls(self._header_cls)")
+    # --- trusted (not verified): socket set-up and tear-down, constructor
+    R.external("Client._socket_connect", params=dict(self="Client", server_name="Str"),
+               modifies=["Client._connected", "Client._sock", "CSocket.closed", "Client.mgr_subs"],
+               ensures=["self._connected", SOCK_OK, "fresh(self._sock)", "self.mgr_subs == empty('Int')"],
+               raises={"MessageManagerNotFound": ["not self._connected"], "SocketOptionError": ["not self._connected"], "ValueError": []},
+               doc="opens a new TCP connection (assumed: a fresh open socket whose inbound stream is a sequence of well-formed frames)")
+    R.external("Client.disconnect", params=dict(self="Client"),
+               modifies=["Client._connected", "Client._subscribed_types", "Client._paused_types", "Client._sub_all", "CSocket.closed", "Client._msg_count", "CSocket.tx_n", "CSocket.tx_hdr"],
+               ensures=["not self._connected"], doc="sends DISCONNECT if connected, closes the socket, resets the bookkeeping (assumed)")
+    R.external("Client.__init__", params=dict(self="Client", module_id="Int", host_id="Int", timecode="Bool", name="Str"),
+               modifies=["Client.*"],
+               ensures=["self._module_id == module_id and self._host_id == host_id and not self._connected and self._dynamic_id == (module_id == 0) and 0 <= module_id and module_id < 100",
+                        "implies(len(name) > 0, self._name == name)", "isascii(self._name) and len(self._name) <= 31",
+                        "self._header_cls == ite(timecode, classid(TimeCodeMessageHeader), classid(MessageHeader))",
+                        "self._subscribed_types == empty('Int') and self._paused_types == empty('Int') and not self._sub_all and self._logger != null and self._sock != null"],
+               raises={"ValueError": ["module_id >= 100 or module_id < 0"]},
+               doc="constructor (assumed; its body looks up a default name in the context and builds the logger). Names are assumed ASCII and shorter than 32.")
+    R.contracts["Client.__init__"].defaults = {"module_id": 0, "host_id": 0, "timecode": False, "name": ""}
+
+    R.contract(C + "Client.send_module_ready", tags="C06",
+               requires=["self._sock != null and not self._sock.closed", "_VALIDATION_ENABLED"],
+               modifies=["Client._msg_count", "Client._connected", "Client.mgr_subs", "glob:_VALIDATION_ENABLED", "CSocket.tx_n", "CSocket.tx_hdr", "Client.last_v2", "Client.last_v1"],
+               ensures=[("C06", "self.last_v2 == old(self.last_v2) and self._module_id == old(self._module_id) and self._name == old(self._name) and self.mgr_subs == old(self.mgr_subs)"),
+                        ("C06", "self._connected and _VALIDATION_ENABLED")],
+               raises={"NotConnectedError": [], "ConnectionLost": []})
+    R.contract(C + "Client.connect", tags="C06",
+               params=dict(server_name="Str", logger_status="Bool", daemon_status="Bool", allow_multiple="Bool"),
+               requires=["_VALIDATION_ENABLED", "self._logger != null", "isascii(self._name) and len(self._name) <= 31", "0 <= self._module_id and self._module_id < 200",
+                         "self._header_cls == classid(MessageHeader) or self._header_cls == classid(TimeCodeMessageHeader)"],
+               modifies=HELP_MOD,
+               ensures=[("C06", "v2_as_named(self, logger_status, daemon_status, allow_multiple, ite(old(self._dynamic_id), 0, old(self._module_id)))",
+                         "Client.connect transmits its options exactly as named"),
+                        ("C02", "cinv(self) and agree(self) and self._connected and _VALIDATION_ENABLED and " + SOCK_OK),
+                        ("C06", "self._name == old(self._name) and self._header_cls == old(self._header_cls)")],
+               raises={"AcknowledgementTimeout": [], "UnknownMessageType": [], "InvalidMessageDefinition": [], "ConnectionLost": [], "NotConnectedError": [],
+                       "MessageManagerNotFound": [], "SocketOptionError": [], "ValueError": [], "InvalidDestinationModule": [], "InvalidDestinationHost": []})
+    R.contract("pyrtma.client:client_context", tags="C06",
+               params=dict(module_id="Int", server_name="Str", msg_list="List[Int]", host_id="Int", timecode="Bool", logger_status="Bool", allow_multiple="Bool", name="Str"),
+               locals=dict(c="Client"),
+               requires=["_VALIDATION_ENABLED", "0 <= module_id", ("C02", "forall('j:Int', implies(0 <= j and j < len(msg_list), -2147483648 <= msg_list[j] and msg_list[j] <= 2147483647))")],
+               modifies=HELP_MOD + ["Client.*", "CSocket.*"],
+               ensures=[("C06", "v2_as_named(c, logger_status, False, allow_multiple, module_id)", "client_context forwards its keyword options to connect() as named (daemon is not an option of client_context)"),
+                        ("C06", "implies(len(name) > 0, c._name == name)")],
+               raises={"AcknowledgementTimeout": [], "UnknownMessageType": [], "InvalidMessageDefinition": [], "ConnectionLost": [], "NotConnectedError": [],
+                       "MessageManagerNotFound": [], "SocketOptionError": [], "ValueError": [], "InvalidDestinationModule": [], "InvalidDestinationHost": [], "InvalidSubscription": []})
